@@ -15,7 +15,7 @@ def _orth2(tag, refl):
     cc, ss = c.fresh_real(tag + "c"), c.fresh_real(tag + "s")
     c.defined.append(cc * cc + ss * ss == 1)
     e = -1 if refl else 1
-    return np.array([[Sym(cc), Sym(-e * ss)], [Sym(ss), Sym(e * cc)]], dtype=object)
+    return np.array([[Sym.var(cc), Sym.var(ss) * (-e)], [Sym.var(ss), Sym.var(cc) * e]], dtype=object)
 
 
 def svd2(a, full_matrices=True, compute_uv=True, **k):
@@ -28,7 +28,7 @@ def svd2(a, full_matrices=True, compute_uv=True, **k):
     U, Vt = _orth2("svdu", ru), _orth2("svdv", rv)
     d = [c.fresh_real("svd_d"), c.fresh_real("svd_d")]
     c.defined += [d[0] >= d[1], d[1] >= 0]
-    D = np.array([Sym(d[0]), Sym(d[1])], dtype=object)
+    D = np.array([Sym.var(d[0]), Sym.var(d[1])], dtype=object)
     rec = U.dot(np.diag(D)).dot(Vt)
     for i in np.ndindex(2, 2):
         c.defined.append(core.eqz(rec[i], a[i]))
